@@ -69,13 +69,13 @@ func c10Concurrent(c *Ctx, up *world.Upstream) {
 						want := mk(who, n+round)
 						rec := httptest.NewRecorder()
 						req, _ := (&world.Req{Method: "GET", Target: "/", Host: "app.example.com", Headers: cookieHdr(jar)}).Parse()
-						if err := px.P.sessionStore.Save(rec, req, want); err != nil {
+						if err := verifSessionStore(px.P).Save(rec, req, want); err != nil {
 							results[t] = append(results[t], result{false, fmt.Sprintf("%s: save %d failed: %v", who, round, err)})
 							continue
 						}
 						jar.SetCookies("http", "app.example.com", "/", rec.Header())
 						req2, _ := (&world.Req{Method: "GET", Target: "/", Host: "app.example.com", Headers: cookieHdr(jar)}).Parse()
-						got, err := px.P.sessionStore.Load(req2)
+						got, err := verifSessionStore(px.P).Load(req2)
 						switch {
 						case err != nil || got == nil:
 							results[t] = append(results[t], result{false, fmt.Sprintf("%s: the session saved a moment ago does not load (%v)", who, err)})
